@@ -75,10 +75,11 @@ import binascii as _binascii
 import hashlib as _hashlib
 import struct as _struct
 import zlib as _zlib
+import fnmatch as _fnmatch
 
 # modules of the standard library whose functions are pure (value in, value out): called for real on determined arguments
 PURE_MODULES = {'string': _string, 'itertools': _itertools, 'keyword': _keyword, 'math': _math, 'hashlib': _hashlib, 'binascii': _binascii, 'base64': _base64,
-                'zlib': _zlib, 'struct': _struct}
+                'zlib': _zlib, 'struct': _struct, 'fnmatch': _fnmatch}
 PURE_VALUE_MODULES = ('_hashlib', '_sha1', '_sha2', '_sha3', '_md5', '_blake2', 'hashlib', 'zlib', '_struct')     # objects those functions return
 
 
